@@ -46,10 +46,75 @@ func normCond(v ssa.Value, pol bool) Atom {
 			if b.Op == token.NEQ {
 				p = !p
 			}
-			return Atom{Kind: IsNil, V: x, Pol: p}
+			return Atom{Kind: IsNil, V: resolveCell(x), Pol: p}
 		}
 	}
-	return Atom{Kind: Truth, V: v, Pol: pol}
+	return Atom{Kind: Truth, V: resolveCell(v), Pol: pol}
+}
+
+// resolveCell: v is a load of a function-private cell (a local that go/ssa
+// did not lift to a register - named results and spilled results of functions
+// with defers - touched only by plain stores and loads): when exactly one
+// store dominates the load and no other store can reach it, the load IS the
+// stored value. Applied repeatedly; anything else is returned unchanged.
+func resolveCell(v ssa.Value) ssa.Value {
+	for depth := 0; depth < 8; depth++ {
+		ld, ok := v.(*ssa.UnOp)
+		if !ok || ld.Op != token.MUL {
+			return v
+		}
+		cell, ok := ld.X.(*ssa.Alloc)
+		if !ok || cell.Heap {
+			return v
+		}
+		var stores []ssa.Instruction
+		for _, r := range *cell.Referrers() {
+			switch x := r.(type) {
+			case *ssa.Store:
+				if x.Addr != ssa.Value(cell) {
+					return v
+				}
+				stores = append(stores, x)
+			case *ssa.UnOp, *ssa.DebugRef:
+			default:
+				return v
+			}
+		}
+		var best *ssa.Store
+		for _, st := range stores {
+			if dominates(st, ld) {
+				if best == nil || dominates(best, st) {
+					best = st.(*ssa.Store)
+				}
+			}
+		}
+		if best == nil {
+			// never stored before this load: still the zero value
+			for _, st := range stores {
+				if reaches(st, ld) {
+					return v
+				}
+			}
+			switch deref(cell.Type()).Underlying().(type) {
+			case *types.Pointer, *types.Interface, *types.Slice, *types.Map, *types.Chan, *types.Signature:
+				return ssa.NewConst(nil, deref(cell.Type()))
+			}
+			return v
+		}
+		for _, st := range stores {
+			if st == ssa.Instruction(best) || dominates(st, best) {
+				continue
+			}
+			if reaches(st, ld) {
+				return v // another store may intervene
+			}
+		}
+		// a store that dominates `best` but can also be re-executed between best
+		// and the load (loops) is excluded by the reach test of the others; best
+		// itself re-reaching the load still yields best's value
+		v = best.Val
+	}
+	return v
 }
 
 func isNilConst(v ssa.Value) bool {
@@ -237,9 +302,70 @@ func (ff *FuncFacts) computeDead() {
 			ff.dead[b] = true
 		}
 	}
-	if fn.Recover != nil {
+	if fn.Recover != nil && mayRecover(fn) {
 		delete(ff.dead, fn.Recover)
 	}
+}
+
+// mayRecover: some deferred call of fn can call recover(), so fn's recover
+// block (which returns the named results / zero values after a recovered
+// panic) is reachable. A deferred builtin (clear, close, ...) or a deferred
+// function whose body, and the in-module functions it calls directly, never
+// call recover() cannot resume the function after a panic.
+func mayRecover(fn *ssa.Function) bool {
+	var callsRecover func(f *ssa.Function, depth int) bool
+	callsRecover = func(f *ssa.Function, _ int) bool {
+		if f == nil || f.Blocks == nil {
+			return false
+		}
+		for _, b := range f.Blocks {
+			for _, in := range b.Instrs {
+				ci, ok := in.(ssa.CallInstruction)
+				if !ok {
+					continue
+				}
+				cc := ci.Common()
+				if bi, ok := cc.Value.(*ssa.Builtin); ok {
+					if bi.Name() == "recover" {
+						return true
+					}
+					continue
+				}
+				// recover() only has effect when called directly by the deferred function
+			}
+		}
+		return false
+	}
+	for _, b := range fn.Blocks {
+		for _, in := range b.Instrs {
+			d, ok := in.(*ssa.Defer)
+			if !ok {
+				continue
+			}
+			if _, isB := d.Call.Value.(*ssa.Builtin); isB {
+				continue
+			}
+			var callee *ssa.Function
+			switch v := d.Call.Value.(type) {
+			case *ssa.Function:
+				callee = v
+			case *ssa.MakeClosure:
+				callee, _ = v.Fn.(*ssa.Function)
+			}
+			if callee == nil {
+				if sc := d.Call.StaticCallee(); sc != nil {
+					callee = sc
+				}
+			}
+			if callee == nil || callee.Blocks == nil {
+				return true // unknown deferred callee
+			}
+			if callsRecover(callee, 0) {
+				return true
+			}
+		}
+	}
+	return false
 }
 
 // livePreds returns predecessors over live edges.
@@ -354,6 +480,14 @@ func (ff *FuncFacts) RetPoints(idx int) []RetPoint {
 	}
 	for i := range out {
 		rp := &out[i]
+		for j, v := range rp.Vals {
+			if u := unspillResult(v, rp.Ret); u != nil {
+				if &rp.Vals[0] == &rp.Ret.Results[0] {
+					rp.Vals = append([]ssa.Value(nil), rp.Vals...)
+				}
+				rp.Vals[j] = u
+			}
+		}
 		if idx < 0 || idx >= len(rp.Vals) {
 			rp.Outcome = Succeeds
 			continue
@@ -361,6 +495,17 @@ func (ff *FuncFacts) RetPoints(idx int) []RetPoint {
 		rp.Outcome = ff.classify(rp, rp.Vals[idx])
 	}
 	return out
+}
+
+// unspillResult: in a function with defers go/ssa stores each result into a
+// local cell before `rundefers` and returns the reloaded cells. When the cell
+// is private to the function (only stores and loads, never captured by a
+// deferred closure) the value returned is the value stored in the same block.
+func unspillResult(v ssa.Value, ret *ssa.Return) ssa.Value {
+	if u := resolveCell(v); u != v {
+		return u
+	}
+	return nil
 }
 
 func (ff *FuncFacts) classify(rp *RetPoint, v ssa.Value) Outcome {
